@@ -548,3 +548,88 @@ Proof. apply model_all_steps. exact step_panic. Qed.
 Lemma no_panic_model : forall evs,
   balanced (trace init evs) -> no_panic_in (trace init evs).
 Proof. intros evs Hb. apply accepted_balanced_no_panic; [apply model_trace_ok | exact Hb]. Qed.
+
+(* ---- enabledness of wake-ups ---------------------------------------------- *)
+
+Definition Ginv (s : state) : Prop :=
+  (forall t g, pcs s t = PWait g -> g < gen s) /\
+  (forall h, wakeup s = Some h -> S h = gen s).
+
+Lemma Ginv_init : Ginv init.
+Proof. split; cbn; intros; discriminate. Qed.
+
+Lemma upd_cases : forall f t p x, upd f t p x = if Nat.eqb x t then p else f x.
+Proof. reflexivity. Qed.
+
+Lemma acquire_Ginv : forall s t, Ginv s -> Ginv (fst (acquire_locked s t)).
+Proof.
+  intros s t (Hw & Hg). unfold acquire_locked.
+  destruct (wakeup s) as [h|] eqn:Hwk.
+  - unfold set_pc. cbn [fst]. split; cbn [pcs gen wakeup].
+    + intros x g Hx. rewrite upd_cases in Hx. destruct (Nat.eqb x t).
+      * inversion Hx; subst. specialize (Hg _ eq_refl). lia.
+      * eapply Hw; eauto.
+    + intros h' Hh'. rewrite Hwk in Hh'. apply Hg. exact Hh'.
+  - destruct (Nat.eqb (useCount s) 0); cbn [fst]; split; cbn [pcs gen wakeup].
+    + intros x g Hx. rewrite upd_cases in Hx. destruct (Nat.eqb x t); [discriminate|].
+      specialize (Hw _ _ Hx). lia.
+    + intros h' Hh'. inversion Hh'. reflexivity.
+    + intros x g Hx. rewrite upd_cases in Hx. destruct (Nat.eqb x t); [discriminate|]. eapply Hw; eauto.
+    + intros h' Hh'. discriminate.
+Qed.
+
+Lemma step_Ginv : forall s e, Ginv s -> Ginv (fst (step s e)).
+Proof.
+  intros s e HG. pose proof HG as (Hw & Hg).
+  destruct e as [t|t|t|t ok|t b]; cbn [step].
+  - destruct (pcs s t); try exact HG. apply acquire_Ginv. exact HG.
+  - destruct (pcs s t); try exact HG. destruct (closed s g); [apply acquire_Ginv|]; exact HG.
+  - destruct (pcs s t); try exact HG. unfold set_pc. cbn [fst]. split; cbn [pcs gen wakeup]; [|exact Hg].
+    intros x g0 Hx. rewrite upd_cases in Hx. destruct (Nat.eqb x t); [discriminate|]. eapply Hw; eauto.
+  - destruct (pcs s t); try exact HG; [destruct ok|]; cbn [fst]; split; cbn [pcs gen wakeup];
+      try (intros h' Hh'; discriminate);
+      intros x g0 Hx; rewrite upd_cases in Hx; (destruct (Nat.eqb x t); [discriminate|]); eapply Hw; eauto.
+  - destruct (pcs s t); try exact HG.
+    destruct (Nat.eqb (useCount s) 0); [exact HG|].
+    destruct (Nat.ltb 0 (pred (useCount s))); [exact HG|].
+    destruct (wakeup s) eqn:Hwk; [split; cbn; auto|].
+    cbn [fst]. split; cbn [pcs gen wakeup].
+    + intros x g0 Hx. rewrite upd_cases in Hx. destruct (Nat.eqb x t); [discriminate|].
+      specialize (Hw _ _ Hx). lia.
+    + intros h' Hh'. inversion Hh'. reflexivity.
+Qed.
+
+Lemma run_Ginv : forall evs s, Ginv s -> Ginv (run s evs).
+Proof.
+  induction evs as [|e tl IH]; intros s HG; cbn [run]; [exact HG|]. apply IH. apply step_Ginv. exact HG.
+Qed.
+
+(* A sleeper is either wakeable now, or sleeps on the channel of a cleaner
+   call that is in flight (whose CleanDone will close it). *)
+Lemma sleeper_wakeable_model : forall evs t g,
+  let s := run init evs in
+  pcs s t = PWait g ->
+  closed s g = true \/ (wakeup s = Some g /\ exists c, is_clean (pcs s c) = true).
+Proof.
+  intros evs t g s Hp. destruct (run_Ginv evs init Ginv_init) as (Hw & Hg). fold s in Hw, Hg.
+  specialize (Hw _ _ Hp). unfold closed.
+  assert (Hlt : Nat.ltb g (gen s) = true) by (apply Nat.ltb_lt; exact Hw). rewrite Hlt. cbn [andb].
+  destruct (wakeup s) as [h|] eqn:Hwk; [|left; reflexivity].
+  destruct (Nat.eqb g h) eqn:E; [|left; reflexivity].
+  apply Nat.eqb_eq in E. subst h. right. split; [reflexivity|].
+  apply (wakeup_iff_cleaner_model evs). fold s. rewrite Hwk. discriminate.
+Qed.
+
+(* ... and a wakeable sleeper's Wake step does something. *)
+Lemma wake_enabled_model : forall s t g,
+  pcs s t = PWait g -> closed s g = true -> snd (step s (Wake t)) <> ONone.
+Proof.
+  intros s t g Hp Hc. cbn [step]. rewrite Hp, Hc. unfold acquire_locked.
+  destruct (wakeup s); [cbn; discriminate|]. destruct (Nat.eqb (useCount s) 0); cbn; discriminate.
+Qed.
+
+Lemma clean_done_enabled_model : forall s t ok,
+  is_clean (pcs s t) = true -> snd (step s (CleanDone t ok)) <> ONone /\ wakeup (fst (step s (CleanDone t ok))) = None.
+Proof.
+  intros s t ok Hc. cbn [step]. destruct (pcs s t); try discriminate; [destruct ok|]; cbn; split; auto; discriminate.
+Qed.
